@@ -50,7 +50,7 @@ theorem setCells_pointwise {s s' : State} (h : Reach s) {l : Nat} (hl : l < s.nL
       cellGet s' n c = .val (if condHolds cond (s.value l c) then v else s.value l c)) := by
   have hw := h.wf
   obtain ⟨ho, hs'⟩ := setCells_ok hl hset
-  have hw' : WF s' := hw.of_sameShape (by rw [hs']; exact ⟨rfl, rfl, rfl, rfl, rfl, rfl, rfl, rfl, rfl⟩)
+  have hw' : WF s' := hw.of_sameShape (by rw [hs']; exact ⟨rfl, rfl, rfl, rfl, rfl, rfl, rfl, rfl, rfl, rfl⟩)
   have e3 : ∀ n, s'.named? n = s.named? n := by intro n; rw [hs']; rfl
   have e4 : s'.dims = s.dims := by rw [hs']
   have hv : ∀ l' c, l' < s.nLayers → s'.value l' c =
